@@ -619,3 +619,36 @@ Proof.
         injection Ett as <- <-; rewrite ?sat_sub_spec; lia. }
   rewrite Ett2. reflexivity.
 Qed.
+
+(* ---- osu!: the hypothesis [osu_filled] of osu_generate_ok is only needed for the accuracy
+   searches (fewer than two hit results provided together with an accuracy); in every other arm
+   the generated state fills the objects unconditionally ------------------------------------ *)
+Definition osu_two_provided (i : osu_in) : bool :=
+  match oi_n300 i, oi_n100 i, oi_n50 i with
+  | Some _, Some _, _ | Some _, _, Some _ | _, Some _, Some _ => true
+  | _, _, _ => false
+  end.
+
+Lemma osu_filled_direct i : osu_in_ok i ->
+  oi_acc i = None \/ osu_two_provided i = true -> osu_filled i.
+Proof.
+  intros (Hno & Hsl & Hlt & Hmc & Hp & Hc & H3 & H1 & H5 & Hm & Hlg & Hsm & Hen) Hcase.
+  assert (Hn : 0 <= osu_n i) by (unfold osu_n; lia).
+  pose proof (omin_le (oi_misses i) (osu_n i) Hn Hm) as Hmis. fold (osu_misses i) in Hmis.
+  assert (Hr : 0 <= osu_rem i) by (unfold osu_rem; lia).
+  pose proof (omin_le (oi_n300 i) (osu_rem i) Hr H3) as H300.
+  pose proof (omin_le (oi_n100 i) (osu_rem i) Hr H1) as H100.
+  pose proof (omin_le (oi_n50 i) (osu_rem i) Hr H5) as H50.
+  unfold osu_filled, osu_generate. cbv zeta. fold (osu_n i). fold (osu_misses i).
+  destruct (osu_slider_parts i) as [[ends large] small].
+  assert (G : let '(a, b, c) := osu_hits i in osu_n i <= a + b + c + osu_misses i).
+  { unfold osu_hits. fold (osu_n i). fold (osu_misses i). fold (osu_rem i).
+    destruct (osu_slider_parts i) as [[ends' large'] small'].
+    destruct (osu_slider_acc i) as [sv msv].
+    unfold osu_two_provided in Hcase. unfold osu_rem in *.
+    destruct (oi_acc i) as [acc|];
+      destruct (oi_n300 i) as [v3|], (oi_n100 i) as [v1|], (oi_n50 i) as [v5|];
+      try (destruct Hcase as [Hcase|Hcase]; discriminate Hcase);
+      destruct (oi_best i); cbn [omin] in *; rewrite ?sat_sub_spec; lia. }
+  destruct (osu_hits i) as [[a b] c]. cbn [os_n300 os_n100 os_n50 os_misses]. exact G.
+Qed.
